@@ -84,6 +84,10 @@ class Runner:
         order.sort(key=lambda i: -specs[i].get("weight", 1))
         sym_pool = ctx.Pool(nproc, initializer=_init_sym, maxtasksperchild=8)
         plain_pool = ctx.Pool(max(2, nproc // 4), initializer=_init_plain, maxtasksperchild=50)
+        default_budget = 200 if self.tier == "quick" else 3000
+        for sp in specs:
+            if sp.get("time_budget") is None:
+                sp["time_budget"] = default_budget
         pend = {i: sym_pool.apply_async(jobs.run_symbolic, (specs[i],)) for i in order}
         replay_pend = []
         done = set()
